@@ -24,9 +24,12 @@ EXTENDS Integers, Sequences, FiniteSets, TLC, Json
 
 Kinds == {"struct", "funcR", "funcA", "builderR", "builderA", "batch"}
 
+\* (xnil: the exec function answers flyt.NewErrorResult(nil) - built by the error constructor from a nil error, e.g.
+\* NewErrorResult(validate(x)) for a valid x: a Result without an error is a success whose value is nil)
 \* [kind, hp, he, hpo, hfb, fails, pres]: which of prep / exec / post / fallback the node provides; does the exec attempt
 \* fail; pres: the value prep returns is itself a flyt.Result (a value like any other)
-Cells == {c \in [kind : Kinds, hp : BOOLEAN, he : BOOLEAN, hpo : BOOLEAN, hfb : BOOLEAN, fails : BOOLEAN, pres : BOOLEAN] :
+Cells == {c \in [kind : Kinds, hp : BOOLEAN, he : BOOLEAN, hpo : BOOLEAN, hfb : BOOLEAN, fails : BOOLEAN, pres : BOOLEAN, xnil : BOOLEAN] :
+            /\ (c.xnil => c.he /\ ~c.fails /\ c.kind \in {"funcR", "builderR", "batch"})
             /\ (c.fails => c.he)                    \* only a provided exec can fail
             /\ (c.kind = "batch" => ~c.hfb /\ ~c.pres)  \* the batch builder has no fallback function
             /\ (c.pres => c.hp)}
@@ -41,7 +44,7 @@ Expected(c) ==
      post   |-> IF c.hpo THEN 1 ELSE 0,             \* a batch's post always runs
      execarg  |-> IF c.he /\ n > 0 THEN "item" ELSE "none",
      postprep |-> IF c.hpo THEN (IF n = 0 THEN "empty" ELSE "items") ELSE "none",
-     postexec |-> IF ~c.hpo THEN "none" ELSE IF n = 0 THEN "empty" ELSE IF ~c.he THEN "nil" ELSE IF c.fails THEN "err" ELSE "X",
+     postexec |-> IF ~c.hpo THEN "none" ELSE IF n = 0 THEN "empty" ELSE IF ~c.he THEN "nil" ELSE IF c.fails THEN "err" ELSE IF c.xnil THEN "nil" ELSE "X",
      iserr  |-> FALSE,
      action |-> IF c.hpo THEN "A" ELSE "default"]
   ELSE
@@ -55,7 +58,7 @@ Expected(c) ==
      execarg  |-> IF ~c.he THEN "none" ELSE IF ~c.hp THEN "nil" ELSE IF c.pres /\ c.kind = "struct" THEN "res(P)" ELSE "P",
      postprep |-> IF ~(c.hpo /\ phaseok) THEN "none" ELSE IF ~c.hp THEN "nil" ELSE IF c.pres THEN "res(P)" ELSE "P",
      postexec |-> IF ~(c.hpo /\ phaseok) THEN "none"
-                  ELSE IF ~c.he THEN "nil" ELSE IF ~c.fails THEN "X" ELSE "F",
+                  ELSE IF ~c.he THEN "nil" ELSE IF c.xnil THEN "nil" ELSE IF ~c.fails THEN "X" ELSE "F",
      iserr  |-> ~phaseok,
      action |-> IF ~phaseok THEN "" ELSE IF c.hpo THEN "A" ELSE "default"]
 
@@ -79,7 +82,7 @@ TableConsistent ==
 (* verdict on the facts logged for one cell:                                *)
 (*   e = [ev |-> "defaults", kind, hp, he, hpo, hfb, fails, prep, exec, fb, post, execarg, postprep, postexec,   *)
 (*        iserr, errmatch, action, route, panicked]                                                              *)
-CellOf(e) == [kind |-> e.kind, hp |-> e.hp, he |-> e.he, hpo |-> e.hpo, hfb |-> e.hfb, fails |-> e.fails, pres |-> e.pres]
+CellOf(e) == [kind |-> e.kind, hp |-> e.hp, he |-> e.he, hpo |-> e.hpo, hfb |-> e.hfb, fails |-> e.fails, pres |-> e.pres, xnil |-> e.xnil]
 Defaults_Failing(h) ==
   UNION {LET e == h[i] x == Expected(CellOf(h[i])) IN
            (IF e.panicked THEN {"partialNodeRuns"} ELSE {})
